@@ -109,12 +109,14 @@ impl UserDefinedDataReader {
             .add_communication_state(StatusKind::SubscriptionMatched);
     }
 
+    /// Returns true if the writer was not yet known to be incompatible
     pub fn add_requested_incompatible_qos(
         &mut self,
         handle: InstanceHandle,
         incompatible_qos_policy_list: Vec<QosPolicyId>,
-    ) {
-        if !self.incompatible_writer_list.contains(&handle) {
+    ) -> bool {
+        let is_new = !self.incompatible_writer_list.contains(&handle);
+        if is_new {
             self.incompatible_writer_list.push(handle);
             self.requested_incompatible_qos_status.total_count += 1;
             self.requested_incompatible_qos_status.total_count_change += 1;
@@ -137,6 +139,7 @@ impl UserDefinedDataReader {
                 }
             }
         }
+        is_new
     }
 
     pub fn get_requested_incompatible_qos_status(&mut self) -> RequestedIncompatibleQosStatus {
